@@ -518,6 +518,7 @@ func SpecMatch(pattern string, hasWild bool, s string) bool {
 //@ func (*EventSubscription).addSubscriber
 //@   requires e != nil && e.cache != nil && e.cache.mq != nil && sub != nil && (t != nil ==> predThrottleInv(t))
 //@   ensures[C09] len(e.queue) == old(len(e.queue)) + 1
+//@   assigns e.queue, elems(e.queue)
 //@   safety[C15]
 //@ closure (*EventSubscription).addSubscriber#1
 //@   requires e != nil && e.cache != nil && e.cache.mq != nil && sub != nil
@@ -678,7 +679,7 @@ func SpecMatch(pattern string, hasWild bool, s string) bool {
 //@   safety[C15]
 // The answer ends the resetting state before it is processed, whatever the answer is.
 //@ closure (*ResourceSubscription).handleResetResource#3
-//@   requires rs != nil
+//@   requires rs != nil && rs.e != nil && rs.e.cache != nil && (err != nil ==> reserr.predErrOK(err))
 //@   assert[C03,C12] rs.processResetGetResponse#1: !rs.resetting
 //@   safety[C15]
 //@ closure (*ResourceSubscription).handleResetResource#4
@@ -686,7 +687,7 @@ func SpecMatch(pattern string, hasWild bool, s string) bool {
 //@   ensures[C12] callcount("Enqueue") == old(callcount("Enqueue")) + 1
 //@   safety[C15]
 //@ closure (*ResourceSubscription).handleResetResource#5
-//@   requires rs != nil
+//@   requires rs != nil && rs.e != nil && rs.e.cache != nil && (err != nil ==> reserr.predErrOK(err))
 //@   assert[C03,C12] rs.processResetGetResponse#2: !rs.resetting
 //@   safety[C15]
 
@@ -710,7 +711,7 @@ func SpecMatch(pattern string, hasWild bool, s string) bool {
 // the MQ subscription to the resource's events made; otherwise it is told about the error.
 //@ func (*Cache).Subscribe
 //@   requires c != nil && sub != nil
-//@   assumes predCacheOK(c)
+//@   assumes predCacheOK(c) && c.mq != nil && (t != nil ==> predThrottleInv(t))
 //@   assert[C09] eventSub.addSubscriber#1: err == nil && eventSub != nil && eventSub.mqSub != nil
 //@   assert[C09] sub.Loaded#1: err != nil && arg0 == nil
 //@   safety[C15]
